@@ -139,6 +139,39 @@ func (g *Graph) NodeOf(a ast.Node) *Node { return g.byAST[a] }
 // NodeContaining returns the node whose AST contains position pos and is the
 // smallest such node (function literals nested in a node belong to it).
 func (g *Graph) NodeContaining(pos token.Pos) *Node {
+	// a node one of whose own expressions starts exactly there, when it is the only one: in rewritten bodies a
+	// statement can be assembled from parts of different source ranges (`err := <expanded call>`), and its
+	// Pos()..End() interval then spans unrelated positions
+	var exact *Node
+	nExact := 0
+	for _, n := range g.Nodes {
+		if n.AST == nil {
+			continue
+		}
+		if _, ok := n.AST.(*ast.RangeStmt); ok {
+			continue
+		}
+		found := false
+		ast.Inspect(n.AST, func(m ast.Node) bool {
+			if m == nil || found {
+				return false
+			}
+			if _, isLit := m.(*ast.FuncLit); isLit {
+				return false
+			}
+			if m.Pos() == pos {
+				found = true
+			}
+			return !found
+		})
+		if found {
+			exact = n
+			nExact++
+		}
+	}
+	if nExact == 1 {
+		return exact
+	}
 	var best *Node
 	for _, n := range g.Nodes {
 		if n.AST == nil {
